@@ -534,14 +534,18 @@ func stress(mix string, dur time.Duration, nworkers int, seed int64, skip string
 	for _, t := range s.ListTorrents() {
 		var st torrent.Stats
 		call(nworkers, "Torrent.Stats", func() error { st = t.Stats(); return nil })
+		resMu.Lock()
 		res.Downloaded += st.Bytes.Downloaded
 		res.Completed += st.Bytes.Completed
+		resMu.Unlock()
 	}
 	call(nworkers, "Session.Close", func() error { return s.Close() })
 	if s2 != nil {
 		call(nworkers, "Session.Close", func() error { return s2.Close() })
 	}
+	resMu.Lock()
 	res.ElapsedMs = time.Since(t0).Milliseconds()
+	resMu.Unlock()
 }
 
 // ---------------------------------------------------------------------------------------------------------------------
@@ -566,7 +570,9 @@ func recipe(opsList []string, dur time.Duration, seed int64) {
 	}
 	closeRounds := has["Session.Close"]
 	for round := 0; time.Now().Before(deadline); round++ {
+		resMu.Lock()
 		res.Rounds = round + 1
+		resMu.Unlock()
 		s, _ := newSession(fmt.Sprintf("r%d", round), resume, false, false)
 		main := len(opsList)
 		for i := 0; i < 2; i++ {
@@ -631,7 +637,9 @@ func recipe(opsList []string, dur time.Duration, seed int64) {
 			case "Session.updateStats", "Session.Close", "torrent.run":
 				// the stats writer runs every millisecond; Close is called below; the loops are there
 			default:
+				resMu.Lock()
 				res.Note += "unknown party " + o + "; "
+				resMu.Unlock()
 			}
 		}
 		if closeRounds {
@@ -648,7 +656,9 @@ func recipe(opsList []string, dur time.Duration, seed int64) {
 			call(main+1, "Session.Close", func() error { return s.Close() })
 		}
 	}
+	resMu.Lock()
 	res.ElapsedMs = time.Since(t0).Milliseconds()
+	resMu.Unlock()
 }
 
 func main() {
